@@ -7,11 +7,13 @@ from simkit.machines.mca import McaMachine
 from simkit.machines.scans import ScansMachine
 from simkit.machines.simtime import SimTimeMachine
 from simkit.machines.steady import SteadyMachine
+from simkit.machines.views import ViewsMachine
 
 REGISTRY = {
     "C03": EditsMachine,
     "C04": SimTimeMachine,
     "C09": ScansMachine,
+    "C10": ViewsMachine,
     "C14": SimTimeMachine,
     "C15": SteadyMachine,
     "C18": McaMachine,
